@@ -1314,6 +1314,16 @@ class ConnectionBase(object):
         if len(self.stats.bytes_recv) > 5 * 60:
             self.stats.pkts_recv.pop(0)
             self.stats.bytes_recv.pop(0)
+
+        # an outage of the link delays the retransmission of every missing
+        # fragment: the time during which nothing at all was received does
+        # not count towards the expiry of partially received messages
+        if self.received_fragments and self.last_recv_time > 0:
+            silence = t0 - self.last_recv_time
+            if silence > self.outgoing_timeout:
+                for receiver in self.received_fragments.values():
+                    receiver.ctime += silence
+
         self.last_recv_time = t0
 
         self._handle_ack_bits(hdr)
